@@ -21,6 +21,8 @@ pub struct Level {
     /// this level's edits are also applied right after an interrupted (failed / aborted)
     /// evaluation of the previous level, instead of only after its failure-free resume
     pub after_fail: bool,
+    /// also every pair of this level's single edits at once (two things changed between evaluations)
+    pub pairs: bool,
 }
 
 #[derive(Clone, Debug)]
@@ -155,15 +157,33 @@ impl<'a> ChainRun<'a> {
             return;
         }
         let lv = self.spec.levels[depth].clone();
-        let mut edits = vec![Edit::None];
+        let mut edits: Vec<Vec<Edit>> = vec![vec![Edit::None]];
         if depth > 0 || !w.hist.is_empty() {
-            edits.extend(single_edits(self.u, w, &lv.edits));
+            let singles = single_edits(self.u, w, &lv.edits);
+            for e in singles.iter() {
+                edits.push(vec![e.clone()]);
+            }
+            if lv.pairs {
+                for (i, a) in singles.iter().enumerate() {
+                    let wa = apply_edit(self.u, w, a);
+                    let second = single_edits(self.u, &wa, &lv.edits);
+                    for b in singles.iter().skip(i + 1) {
+                        if second.contains(b) {
+                            edits.push(vec![a.clone(), b.clone()]);
+                        }
+                    }
+                }
+            }
         }
-        for e in edits {
-            let w2 = apply_edit(self.u, w, &e);
-            let pk = format!("{}/{}", pathkey, e.describe());
+        for es in edits {
+            let mut w2 = w.clone();
+            for e in es.iter() {
+                w2 = apply_edit(self.u, &w2, e);
+            }
+            let desc = es.iter().map(|e| e.describe()).collect::<Vec<_>>().join(" + ");
+            let pk = format!("{}/{}", pathkey, desc);
             let mut extra = Map::new();
-            extra.insert("edit".into(), json!(e.describe()));
+            extra.insert("edit".into(), json!(desc));
             if let Some((pl, _)) = prev {
                 extra.insert("prev".into(), json!(pl));
             }
